@@ -33,9 +33,10 @@ def _variants(tier):
 def subharnesses(tier):
     subs = []
     worlds = [('T1', 1, 3)] if tier == 'quick' else \
-        [('T1', 1, 3), ('T2', 1, 3), ('T1', 2, 3), ('T1', 1, 4)]
+        [('T1', 1, 3), ('T2', 1, 3), ('T1', 2, 3)]
     for topo, D, A in worlds:
-        for tag, states, ov, events in _variants(tier):
+        for tag, states, ov, events in (_variants(tier) if D == 1 else
+                                        _variants('quick')[:4]):
             for pl in g1.placements(A, 2, symmetric=False):
                 if not any(x == 0 for x in pl) and 'blacklist' not in ov:
                     continue     # nobody on the affected server
